@@ -41,6 +41,7 @@ type Worker struct {
 	need      []string
 	afterInit func()
 	stripped  bool
+	schedule  []string
 	ref       *Corpus // independent second load, used only by the reference model
 	refTable  *RefTable
 	infos     []*linter.CheckerInfo
